@@ -264,3 +264,73 @@ Proof.
   cbn [step]. destruct (get_ann s a) eqn:E; [apply IH|].
   rewrite (rm_missing _ _ E). cbn [fst]. apply IH.
 Qed.
+
+(** * However evaluated: the reverse indices give what the filter gives (reachable stores).
+   The evaluator obtains the candidates of an ANNOTATION query from a reverse index when the
+   first constraint has one; by C01 (every reverse index of every reachable store is exact)
+   that list is the level of [sem]. *)
+From Stam Require Import Model.StoreObs Proofs.StoreScan Proofs.StoreInv Proofs.StoreDataDef Proofs.StoreData.
+
+Lemma filter_map_comm {X Y} (f : X -> Y) (p : Y -> bool) l : filter p (map f l) = map f (filter (fun x => p (f x)) l).
+Proof. induction l as [|x l IH]; cbn; [reflexivity|]. destruct (p (f x)); cbn; rewrite IH; reflexivity. Qed.
+
+Lemma filter_filter {X} (p q : X -> bool) l : filter p (filter q l) = filter (fun x => q x && p x) l.
+Proof. induction l as [|x l IH]; cbn; [reflexivity|]. destruct (q x); cbn; [destruct (p x); cbn; rewrite IH; reflexivity|exact IH]. Qed.
+
+(* a single constraint on annotations that is a property of the annotation alone *)
+Lemma level_ann_scan s e c (P : ann -> bool) :
+  (forall h an, get_ann s h = Some an -> csat s e c (IAnn h) = P an) ->
+  level s e TAnn [c] None = map IAnn (scan s P).
+Proof.
+  intros H. unfold level, apply_limit, universe, live_handles, scan.
+  rewrite filter_map_comm, filter_filter. f_equal. apply filter_ext. intros h.
+  unfold all_sat. cbn [forallb]. rewrite andb_true_r. unfold get_ann.
+  destruct (slot (anns s) h) as [an|] eqn:E; cbn [andb]; [|reflexivity].
+  apply H. exact E.
+Qed.
+
+Section Routes.
+  Variable ops : list op.
+  Let s := run ops.
+  Let HI : Inv s := proj1 (reachable_Good ops).
+
+  (* RESOURCE r: resource.annotations() *)
+  Theorem route_resource e tok r : res_by_id s tok = Some r ->
+    level s e TAnn [CRes (RId tok) false] None = map IAnn (m_res_text s r).
+  Proof.
+    intros Hr. rewrite (res_text_eq s HI). apply level_ann_scan. intros h an Ha.
+    cbn. unfold sat_base. rewrite Ha. cbn. rewrite Hr. reflexivity.
+  Qed.
+
+  (* RESOURCE AS METADATA r: resource.annotations_as_metadata() *)
+  Theorem route_resource_metadata e tok r : res_by_id s tok = Some r ->
+    level s e TAnn [CRes (RId tok) true] None = map IAnn (m_res_meta s r).
+  Proof.
+    intros Hr. rewrite (res_meta_eq s HI). apply level_ann_scan. intros h an Ha.
+    cbn. unfold sat_base. rewrite Ha. cbn. rewrite Hr. reflexivity.
+  Qed.
+
+  (* DATASET AS METADATA d: dataset.annotations() *)
+  Theorem route_dataset_metadata e tok d : set_by_id s tok = Some d ->
+    level s e TAnn [CSet (RId tok) true] None = map IAnn (m_set_meta s d).
+  Proof.
+    intros Hd. rewrite (set_meta_eq s HI). apply level_ann_scan. intros h an Ha.
+    cbn. unfold sat_base. rewrite Ha. cbn. rewrite Hd. reflexivity.
+  Qed.
+
+  (* ANNOTATION AS TARGET y: y.annotations() *)
+  Theorem route_annotation_target e tok y : ann_by_id s tok = Some y ->
+    level s e TAnn [CAnn (RId tok) true] None = map IAnn (m_ann_anns s y).
+  Proof.
+    intros Hy. rewrite (ann_anns_eq s HI). apply level_ann_scan. intros h an Ha.
+    cbn. unfold sat_base. rewrite Ha. cbn. rewrite Hy. reflexivity.
+  Qed.
+
+  (* DATA ?x: x.annotations() *)
+  Theorem route_data_variable e v d x : lookup e v = Some (IData d x) ->
+    level s e TAnn [CDataVar v false] None = map IAnn (m_data_anns s d x).
+  Proof.
+    intros Hv. rewrite (data_anns_eq s HI). apply level_ann_scan. intros h an Ha.
+    cbn. unfold sat_base. rewrite Ha. cbn. rewrite Hv. reflexivity.
+  Qed.
+End Routes.
